@@ -84,6 +84,7 @@ type procSpec struct {
 	Text     string `json:"text,omitempty"`
 	FinalMs  int    `json:"final_ms,omitempty"`
 	Fork     bool   `json:"fork,omitempty"` // the shell forks a worker child (pipeline / compound command)
+	LingerMs int    `json:"linger_ms,omitempty"` // closes its output after the last chunk and stays alive
 }
 
 type sysPlan struct {
@@ -265,7 +266,7 @@ func (p *sysPlan) baseArgs() []string {
 }
 
 func genScript(lines []string, ps procSpec) simos.Script {
-	sc := simos.Script{StartErr: ps.StartErr, Endless: ps.Endless, ExitCode: ps.Exit, FinalMs: ps.FinalMs, Fork: ps.Fork}
+	sc := simos.Script{StartErr: ps.StartErr, Endless: ps.Endless, ExitCode: ps.Exit, FinalMs: ps.FinalMs, Fork: ps.Fork, LingerMs: ps.LingerMs}
 	i := 0
 	k := 0
 	for i < len(lines) {
@@ -320,7 +321,7 @@ func (r *sysRun) defaultBehave(p *simos.Proc) simos.Script {
 		ps = r.plan.Procs[r.genSeq[class]%len(r.plan.Procs)]
 	}
 	r.genSeq[class]++
-	sc := simos.Script{StartErr: ps.StartErr, Endless: ps.Endless, ExitCode: ps.Exit, FinalMs: ps.FinalMs, Fork: ps.Fork}
+	sc := simos.Script{StartErr: ps.StartErr, Endless: ps.Endless, ExitCode: ps.Exit, FinalMs: ps.FinalMs, Fork: ps.Fork, LingerMs: ps.LingerMs}
 	text := ps.Text
 	d := 0
 	if len(ps.DelaysMs) > 0 {
